@@ -28,6 +28,23 @@ pub struct AllocPlan {
 pub const KINDS: usize = 12;
 
 pub fn plan(data: &[u8], max_iter: usize, max_keep: usize) -> AllocPlan {
+    plan_n(data, max_iter, max_keep, KINDS)
+}
+
+/// kinds beyond the first twelve: 12 and 13 create ranges whose bounds change with every iteration
+/// (a loop range, a slice), 14 imports a module that does not compile and one that does (needs the
+/// modules of `loop_modules` in the loader)
+pub const KINDS_WITH_RANGES: usize = 14;
+pub const KINDS_WITH_IMPORTS: usize = 15;
+
+pub fn loop_modules() -> Vec<(String, String)> {
+    vec![
+        ("goodmod".to_string(), "var tag = \"good\";\nfn one() { return 1; }\n".to_string()),
+        ("badmod".to_string(), "var tag = \"bad\";\nfn broken( { return 1; }\nvar more = [1, 2, 3];\n".to_string()),
+    ]
+}
+
+pub fn plan_n(data: &[u8], max_iter: usize, max_keep: usize, nkinds: usize) -> AllocPlan {
     let mut rd = Rd::new(data, 1000);
     let iterations = 50 + rd.below(max_iter.saturating_sub(50).max(1));
     let keep = match rd.below(6) {
@@ -39,7 +56,7 @@ pub fn plan(data: &[u8], max_iter: usize, max_keep: usize) -> AllocPlan {
     let k = 1 + rd.below(4);
     let mut kinds = Vec::new();
     for _ in 0..k {
-        kinds.push(rd.below(KINDS));
+        kinds.push(rd.below(nkinds));
     }
     let retained_kind = rd.below(7);
     let burst = if rd.chance(1, 3) { 500 + rd.below(6000) } else { 0 };
@@ -124,6 +141,30 @@ fn garbage(kind: usize, out: &mut Vec<Stmt>) {
                 )),
             ));
             out.push(acc_add(Expr::invoke(v("g"), "len", vec![])));
+        }
+        12 => {
+            // a loop over a range whose bounds are new in every iteration
+            out.push(Stmt::new(StmtKind::For(
+                "q".into(),
+                Expr::range(v("i"), Expr::bin(BinOp::Add, v("i"), n(2.0))),
+                vec![acc_add(n(1.0))],
+            )));
+        }
+        13 => {
+            // slices with bounds that change with the iteration; a range value kept in a local
+            out.push(Stmt::var("g", Some(Expr::index(Expr::VecLit(vec![n(1.0), n(2.0), n(3.0), n(4.0), n(5.0)]), Expr::range(Expr::bin(BinOp::Mod, v("i"), n(4.0)), n(5.0))))));
+            out.push(Stmt::var("r", Some(Expr::range(n(0.0), v("i")))));
+            out.push(acc_add(Expr::invoke(v("g"), "len", vec![])));
+        }
+        14 => {
+            // an import that fails to compile (caught), and one that succeeds (loaded once)
+            out.push(Stmt::new(StmtKind::Try(
+                vec![Stmt::new(StmtKind::Import("badmod".into(), None)), acc_add(n(1000.0))],
+                Some(("e".into(), vec![acc_add(n(1.0))])),
+                None,
+            )));
+            out.push(Stmt::new(StmtKind::Import("goodmod".into(), None)));
+            out.push(acc_add(Expr::invoke(v("goodmod"), "one", vec![])));
         }
         _ => {
             // strings from a fixed pool (interned strings are retained by design)
